@@ -8,6 +8,7 @@ pub mod c03;
 pub mod c04;
 pub mod c05;
 pub mod c06;
+pub mod c06_stage;
 pub mod c07;
 pub mod c08;
 pub mod c09;
